@@ -2,6 +2,7 @@ package main
 
 import (
 	"flag"
+	"runtime/pprof"
 	"fmt"
 	"os"
 	"sort"
@@ -10,6 +11,16 @@ import (
 )
 
 func main() {
+	if pf := os.Getenv("GOVC_PROF"); pf != "" {
+		f, _ := os.Create(pf)
+		pprof.StartCPUProfile(f)
+		go func() {
+			time.Sleep(45 * time.Second)
+			pprof.StopCPUProfile()
+			f.Close()
+			os.Exit(3)
+		}()
+	}
 	if len(os.Args) < 2 {
 		fmt.Fprintln(os.Stderr, "usage: govc <vc|check|list> ...")
 		os.Exit(2)
@@ -113,7 +124,14 @@ func cmdVC(args []string) {
 			continue
 		}
 		fmt.Printf("== %s: %d obligations, %d facts, vcgen %.2fs bv=%v\n", key, len(x.obls), len(x.facts), time.Since(t0).Seconds(), x.bv)
-		rs, vac := x.SolveFiltered(SolveOpts{Dir: dir, QuickMs: 2000, FallbackS: 8})
+		qms, fbs := 2000, 8
+		if v := os.Getenv("GOVC_QMS"); v != "" {
+			fmt.Sscanf(v, "%d", &qms)
+		}
+		if v := os.Getenv("GOVC_FBS"); v != "" {
+			fmt.Sscanf(v, "%d", &fbs)
+		}
+		rs, vac := x.SolveFiltered(SolveOpts{Dir: dir, QuickMs: qms, FallbackS: fbs})
 		if vac {
 			fmt.Println("  !! VACUOUS: assumptions are unsatisfiable")
 			fmt.Println("     ", x.FindVacuity(dir))
